@@ -1,4 +1,5 @@
 import JT.Proof.GoFrame
+import JT.Proof.GoModel
 /-!
 # C03 — the frame-level decoders as they stand in the source are total
 
@@ -30,5 +31,37 @@ theorem source_is_model (fuel : Nat) (d : Bytes) (hf : d.length < fuel) :
       | some r => .ok (r, none)
       | none => .ok ([], some "ErrUnqualifiedData")) :=
   ⟨escape_eq d fuel hf, createVerifyCode_eq d fuel hf, unescape_eq d fuel hf⟩
+
+/-- **Message-body decoders as translated from protocol/model never panic** (`JT/Gen/GoModel.lean`, regenerated on every run): for every body (any length, any bytes) and every receiver state each of these `Parse` methods returns a value — a result or an error. The proof is the tactic `go_total`: every checked access becomes an `if`, and every `panic` branch contradicts the length guards on its path. -/
+theorem source_body_decoders_total (fuel : Nat) (j : Gen.GoFrame.jt808_JTMessage) :
+    (∀ t : Gen.GoModel.model_P0x8001, ∃ r, Gen.GoModel.model_P0x8001_Parse fuel t j = .ok r) ∧
+    (∀ t : Gen.GoModel.model_P0x8100, ∃ r, Gen.GoModel.model_P0x8100_Parse fuel t j = .ok r) ∧
+    (∀ t : Gen.GoModel.model_P0x8104, ∃ r, Gen.GoModel.model_P0x8104_Parse fuel t j = .ok r) ∧
+    (∀ t : Gen.GoModel.model_P0x8801, ∃ r, Gen.GoModel.model_P0x8801_Parse fuel t j = .ok r) ∧
+    (∀ t : Gen.GoModel.model_P0x9003, ∃ r, Gen.GoModel.model_P0x9003_Parse fuel t j = .ok r) ∧
+    (∀ t : Gen.GoModel.model_P0x9101, ∃ r, Gen.GoModel.model_P0x9101_Parse fuel t j = .ok r) ∧
+    (∀ t : Gen.GoModel.model_P0x9102, ∃ r, Gen.GoModel.model_P0x9102_Parse fuel t j = .ok r) ∧
+    (∀ t : Gen.GoModel.model_P0x9105, ∃ r, Gen.GoModel.model_P0x9105_Parse fuel t j = .ok r) ∧
+    (∀ t : Gen.GoModel.model_P0x9207, ∃ r, Gen.GoModel.model_P0x9207_Parse fuel t j = .ok r) ∧
+    (∀ t : Gen.GoModel.model_T0x0001, ∃ r, Gen.GoModel.model_T0x0001_Parse fuel t j = .ok r) ∧
+    (∀ t : Gen.GoModel.model_T0x0800, ∃ r, Gen.GoModel.model_T0x0800_Parse fuel t j = .ok r) ∧
+    (∀ t : Gen.GoModel.model_T0x1003, ∃ r, Gen.GoModel.model_T0x1003_Parse fuel t j = .ok r) ∧
+    (∀ t : Gen.GoModel.model_T0x1206, ∃ r, Gen.GoModel.model_T0x1206_Parse fuel t j = .ok r) ∧
+    (∀ t : Gen.GoModel.model_T0x1211, ∃ r, Gen.GoModel.model_T0x1211_Parse fuel t j = .ok r) := by
+  refine ⟨?_, ?_, ?_, ?_, ?_, ?_, ?_, ?_, ?_, ?_, ?_, ?_, ?_, ?_⟩ <;> intro t
+  · exact (Go.X.isOk_iff _).mp (Gen.GoModel.P0x8001_Parse_total fuel t j)
+  · exact (Go.X.isOk_iff _).mp (Gen.GoModel.P0x8100_Parse_total fuel t j)
+  · exact (Go.X.isOk_iff _).mp (Gen.GoModel.P0x8104_Parse_total fuel t j)
+  · exact (Go.X.isOk_iff _).mp (Gen.GoModel.P0x8801_Parse_total fuel t j)
+  · exact (Go.X.isOk_iff _).mp (Gen.GoModel.P0x9003_Parse_total fuel t j)
+  · exact (Go.X.isOk_iff _).mp (Gen.GoModel.P0x9101_Parse_total fuel t j)
+  · exact (Go.X.isOk_iff _).mp (Gen.GoModel.P0x9102_Parse_total fuel t j)
+  · exact (Go.X.isOk_iff _).mp (Gen.GoModel.P0x9105_Parse_total fuel t j)
+  · exact (Go.X.isOk_iff _).mp (Gen.GoModel.P0x9207_Parse_total fuel t j)
+  · exact (Go.X.isOk_iff _).mp (Gen.GoModel.T0x0001_Parse_total fuel t j)
+  · exact (Go.X.isOk_iff _).mp (Gen.GoModel.T0x0800_Parse_total fuel t j)
+  · exact (Go.X.isOk_iff _).mp (Gen.GoModel.T0x1003_Parse_total fuel t j)
+  · exact (Go.X.isOk_iff _).mp (Gen.GoModel.T0x1206_Parse_total fuel t j)
+  · exact (Go.X.isOk_iff _).mp (Gen.GoModel.T0x1211_Parse_total fuel t j)
 
 end JT.C03
